@@ -34,7 +34,7 @@ EXTENDS EventQueue
 
 \* constants of EventQueue for trace checking: no bounds on calls / events, no history
 TrTs == 0..1000000
-TrKinds == {"Unplug", "Plugin", "Recompute"}
+TrKinds == {"Unplug", "Plugin", "Recompute", "Urgent", "Base"}
 TrNone == {}
 
 Batch == ndJsonDeserialize("EventQueue_batch.ndjson")
